@@ -206,7 +206,9 @@ pub struct Specs { pub sections: BTreeMap<String, String>, pub used: BTreeSet<St
 impl Specs {
     fn load_ref(&mut self, p: &Path) -> Result<(), String> {
         let before: BTreeSet<String> = self.sections.keys().cloned().collect();
+        let tail_before = self.sections.get("tail").cloned();
         self.load(p)?;
+        match tail_before { Some(t) => { self.sections.insert("tail".into(), t); } None => { self.sections.remove("tail"); } }
         for k in self.sections.keys() { if !before.contains(k) { self.exempt.insert(k.clone()); } }
         Ok(())
     }
@@ -330,6 +332,13 @@ fn extract_fn(cx: &mut Ctx, specs: &mut Specs, em: &mut Emitter, ex: &Extract) {
     let Some(file) = cx.file(&ex.file) else { return; };
     let found = find_fn(&file, &ex.path, 0);
     if found.len() != 1 { cx.err(format!("lost anchor: {} `{}` in {}: {} candidates", ex.kind, ex.path, ex.file, found.len())); return; }
+    if ex.opt("poll").as_deref() == Some("yes") {
+        // A6: the poll of `impl Future for T` becomes the inherent method `T::await_`
+        let mut fd = Found { im: found[0].im.clone(), tr: None, f: found[0].f.clone() };
+        if let Some(im) = &mut fd.im { im.trait_ = None; }
+        emit_fn(cx, specs, em, ex, &file, &fd, None);
+        return;
+    }
     emit_fn(cx, specs, em, ex, &file, &found[0], None);
 }
 
@@ -440,6 +449,14 @@ fn emit_fn(cx: &mut Ctx, specs: &mut Specs, em: &mut Emitter, ex: &Extract, file
             if fields.iter().any(|n| n == "self") { cx.err(format!("outside dialect: async block {} of {} captures `self` as a whole", k, ex.path)); }
         }
     }
+    // A6: `impl Future for T { fn poll(self: Pin<&mut Self>, cx) -> Poll<O> { <place>.poll_unpin(cx).map(|p| F) } }` -> `fn await_(&mut self) -> O { let p = <place>.poll_ready(); F }`
+    if ex.opt("poll").as_deref() == Some("yes") {
+        match rewrite::a6_poll_to_await(&mut f, cx) { true => { cx.fire("A6"); ret_ty = match &f.sig.output { syn::ReturnType::Type(_, t) => Some((**t).clone()), _ => None };
+            // `Self::Output` is the associated type of the Future impl
+            if ret_ty.as_ref().map(|t| nospace(&t.to_token_stream().to_string()) == "Self::Output").unwrap_or(false) {
+                if let Some(im) = &fd.im { for ii in &im.items { if let syn::ImplItem::Type(t) = ii { if t.ident == "Output" { ret_ty = Some(t.ty.clone()); } } } }
+            } } false => { cx.err(format!("outside dialect: `{}` is not of the A6 poll shape", ex.path)); return; } }
+    }
     // A5: fn returning impl Future whose body is a single async block / eager call
     if !is_async { if let Some(rt) = &ret_ty { if let syn::Type::ImplTrait(_) = rt { if let Some(out) = future_output(rt) {
         if rewrite::a5_normalise(&mut f.block, cx) { ret_ty = Some(out); is_async = true; cx.fire("A5"); }
@@ -456,6 +473,13 @@ fn emit_fn(cx: &mut Ctx, specs: &mut Specs, em: &mut Emitter, ex: &Extract, file
     let mut rw = Rw::new(cx, lifted, binders, name.clone());
     rw.self_to_this = mut_self && !lifted;
     rw.lift_prefix = { let p = ex.path.rsplit('@').next().unwrap().replace("::", "__"); if lifted { format!("{}__async", p) } else { p } };
+    rw.typed_ctors = specs.sections.keys().filter_map(|k| k.strip_prefix("sig ").map(|s| s.to_string())).collect();
+    rw.gen_idents = {
+        let mut gs: Vec<syn::Generics> = vec![]; if let Some(im) = &fd.im { gs.push(im.generics.clone()); } if let Some(g) = &tr_generics { gs.push(g.clone()); } gs.push(f.sig.generics.clone());
+        let grefs: Vec<&syn::Generics> = gs.iter().collect();
+        let cl = closure_generics(&grefs, rw.cx);
+        gs.iter().flat_map(|g| g.params.iter().filter_map(|p| if let syn::GenericParam::Type(t) = p { Some(t.ident.to_string()) } else { None }).collect::<Vec<_>>()).filter(|n| !cl.contains_key(n)).collect()
+    };
     let mut block = f.block.clone();
     rw.visit_block_mut(&mut block);
     let nloops = rw.loops;
@@ -504,7 +528,7 @@ fn emit_fn(cx: &mut Ctx, specs: &mut Specs, em: &mut Emitter, ex: &Extract, file
     let in_impl = !lifted && fd.im.is_some();
     let in_trait_impl = in_impl && fd.im.as_ref().unwrap().trait_.is_some();
     let name = if in_impl || in_trait.is_some() { ex.path.clone() } else { name };
-    let fn_ident = if in_impl || in_trait.is_some() { base_name.clone() } else { name.clone() };
+    let fn_ident = if in_impl || in_trait.is_some() { f.sig.ident.to_string() } else { name.clone() };
     let indent = if in_impl || in_trait.is_some() { "    " } else { "" };
 
     // ---- emit
@@ -576,6 +600,7 @@ fn emit_lifted(cx: &mut Ctx, specs: &mut Specs, em: &mut Emitter, gens: &[&syn::
     let mut own = String::from("own_none()");
     let mut tps = vec![]; let mut ps = vec![];
     for (i, c) in lc.captures.iter().enumerate() { let c = if c == "self" { "this".to_string() } else { c.clone() }; tps.push(format!("HxT{}", i)); ps.push(format!("{}: HxT{}", c, i)); own = format!("own_join({}, own_of(&{}))", own, c); }
+    em.raw(&format!("pub open spec fn {}__code() -> int {{ {} }}", lc.name, fnv(&lc.name)));
     let start = em.line();
     em.raw("#[verifier::external_body] // @closure-constructor: a closure object owns exactly what its literal captures (Rust semantics)");
     match specs.get(&format!("sig {}", ctor)) {
@@ -597,6 +622,8 @@ fn emit_lifted(cx: &mut Ctx, specs: &mut Specs, em: &mut Emitter, gens: &[&syn::
     rewrite::collect_binders_block(&block, &mut binders);
     let mut rw = Rw::new(cx, false, binders, lc.name.clone());
     rw.lift_prefix = lc.name.clone();
+    rw.typed_ctors = specs.sections.keys().filter_map(|k| k.strip_prefix("sig ").map(|s| s.to_string())).collect();
+    rw.gen_idents = { let cl = closure_generics(gens, rw.cx); gens.iter().flat_map(|g| g.params.iter().filter_map(|p| if let syn::GenericParam::Type(t) = p { Some(t.ident.to_string()) } else { None }).collect::<Vec<_>>()).filter(|n| !cl.contains_key(n)).collect() };
     rw.visit_block_mut(&mut block);
     let nloops = rw.loops;
     let more = std::mem::take(&mut rw.lifted_closures);
@@ -775,7 +802,6 @@ fn main() {
             other => cx.err(format!("unit file: unknown extract kind {}", other)),
         }
     }
-    if specs.exempt.contains("tail") { specs.sections.remove("tail"); }
     if let Some(t) = specs.get("tail") { em.comment("// @tail (spec-level lemmas of the unit)"); em.raw_block(&t, ""); }
     em.raw("} // verus!");
     em.raw("fn main() {}");
